@@ -198,7 +198,9 @@ def invalid_name_cases():
            'member': ['', '1a', 'a.b', 'a-b', 'a b'], 'destination': ['', 'a', ':1', ':.a', 'a.b.', ':1..2', 'a.b c'], 'error_name': ['', 'a', 'a.', 'a..b']}
     # letters and digits outside ASCII are not name characters; names are at most 255 characters long
     foreign = ['Gr\u00f6\u00dfe', 'caf\u00e9', '\u0394t', 'x\u0663', '\u00e9', 'a\u00aa', 'x\u00b2']
-    bad['member'] += foreign + ['a' * 256]
+    bad['member'] += foreign + ['a' * 256, 'M\n', 'M\r', 'M\0', '\nM', 'M ']
+    for k_, ok_ in (('interface', 'a.b'), ('error_name', 'a.b'), ('destination', 'a.b'), ('destination', ':1.2'), ('path', '/a')):
+        bad[k_] += [ok_ + '\n', ok_ + '\0', ok_ + ' ', '\n' + ok_]
     bad['interface'] += ['a.' + x for x in foreign] + [x + '.b' for x in foreign] + ['a.' + 'b' * 254]
     bad['error_name'] += ['a.' + x for x in foreign] + ['a.' + 'b' * 254]
     bad['destination'] += ['a.' + x for x in foreign] + [':1.' + x for x in foreign] + ['a.' + 'b' * 254]
